@@ -33,6 +33,17 @@ pub struct AisleScenario {
     pub hash_seed: u64,
     pub ops_a: Vec<AisleOp>,
     pub ops_b: Vec<AisleOp>,
+    /// a third configuration, parsed from a different text, alive at the same time and
+    /// operated on in between (state shared through a static / thread_local keyed by
+    /// address or size would confuse the two)
+    #[serde(default, skip_serializing_if = "Option::is_none")]
+    pub other_text: Option<String>,
+    #[serde(default, skip_serializing_if = "Vec::is_empty")]
+    pub ops_c: Vec<AisleOp>,
+    /// interleaving of the three histories: each entry takes the next operation of replica
+    /// 0 (A), 1 (B) or 2 (C). Empty = all of A, then all of B, then all of C.
+    #[serde(default, skip_serializing_if = "Vec::is_empty")]
+    pub order: Vec<u8>,
 }
 
 #[derive(Default, Clone, Serialize)]
@@ -286,10 +297,40 @@ fn execute_inner(sc: &AisleScenario) -> (Vec<Violation>, AisleStats) {
         out.push(v("replica-divergence", format!("a second parse of {text:?} failed although the first succeeded")));
         return (out, st);
     };
-    for (which, ops) in [(0, &sc.ops_a), (1, &sc.ops_b)] {
-        for op in ops {
+    let other_text = sc.other_text.clone().unwrap_or_default();
+    let mut c_conf: Option<AisleConf> = if sc.other_text.is_some() { aisle::parse(&other_text).ok() } else { None };
+    let golden_c: Vec<u8> = c_conf.as_ref().and_then(|c| write_golden(c).ok()).map(|g| g.0).unwrap_or_default();
+    // flatten the three histories into one sequence
+    let mut seq: Vec<(u8, &AisleOp)> = Vec::new();
+    {
+        let lists = [&sc.ops_a, &sc.ops_b, &sc.ops_c];
+        let mut next = [0usize; 3];
+        for &t in &sc.order {
+            let t = (t as usize).min(2);
+            if let Some(op) = lists[t].get(next[t]) {
+                seq.push((t as u8, op));
+                next[t] += 1;
+            }
+        }
+        for t in 0..3 {
+            while let Some(op) = lists[t].get(next[t]) {
+                seq.push((t as u8, op));
+                next[t] += 1;
+            }
+        }
+    }
+    {
+        for (which, op) in seq {
+            if which == 2 && c_conf.is_none() {
+                continue;
+            }
             st.ops += 1;
-            let r: &mut AisleConf = if which == 0 { &mut a } else { &mut b };
+            let golden: &Vec<u8> = if which == 2 { &golden_c } else { &golden };
+            let r: &mut AisleConf = match which {
+                0 => &mut a,
+                1 => &mut b,
+                _ => c_conf.as_mut().unwrap(),
+            };
             match op {
                 AisleOp::Lookup => check_lookup(r, &mut out, &mut st),
                 AisleOp::Reverse => {
@@ -331,7 +372,7 @@ fn execute_inner(sc: &AisleScenario) -> (Vec<Violation>, AisleStats) {
                     }
                     *r = c;
                 }
-                AisleOp::Write { faults } => check_faulty_write(r, &golden, faults, &mut out, &mut st),
+                AisleOp::Write { faults } => check_faulty_write(r, golden, faults, &mut out, &mut st),
                 AisleOp::Reparse => {
                     if let Ok((g, _)) = write_golden(r) {
                         let t = String::from_utf8_lossy(&g).into_owned();
@@ -370,6 +411,16 @@ fn execute_inner(sc: &AisleScenario) -> (Vec<Violation>, AisleStats) {
         (Ok((ga, _)), Ok((gb, _))) if ga == golden && gb == golden => {}
         _ => out.push(v("replica-divergence", "write(A), write(B) and the fault-free output of a fresh parse differ after the histories".into())),
     }
+    // the histories are over: every configuration still answers lookups correctly
+    check_lookup(&a, &mut out, &mut st);
+    check_lookup(&b, &mut out, &mut st);
+    if let Some(c) = &c_conf {
+        check_lookup(c, &mut out, &mut st);
+        match write_golden(c) {
+            Ok((g, _)) if g == golden_c => {}
+            _ => out.push(v("replica-divergence", "the other configuration's output changed during the histories".into())),
+        }
+    }
     (out, st)
 }
 
@@ -405,7 +456,7 @@ fn gen_write_faults(r: &mut Rng, calls: u32) -> Vec<WriteFault> {
 }
 
 pub fn gen_ops(r: &mut Rng, text: &str, calls: u32) -> Vec<AisleOp> {
-    let n = *r.pick(&[0usize, 1, 1, 2, 2, 3, 4, 6]);
+    let n = *r.pick(&[0usize, 1, 1, 2, 2, 3, 4, 6, 6, 12, 40]);
     let mut ops = Vec::new();
     for _ in 0..n {
         ops.push(match r.below(10) {
@@ -442,14 +493,29 @@ pub fn gen_scenario(run_seed: u64) -> AisleScenario {
     let calls = catch_unwind(AssertUnwindSafe(|| aisle::parse(&text).ok().and_then(|c| write_golden(&c).ok()).map(|g| g.1))).ok().flatten().unwrap_or(4);
     let ops_a = gen_ops(&mut root.fork(2), &text, calls);
     let ops_b = gen_ops(&mut root.fork(3), &text, calls);
-    AisleScenario { text, hash_seed: root.fork(4).next_u64(), ops_a, ops_b }
+    {
+        let mut r5 = root.fork(5);
+        let (other_text, ops_c, order) = if r5.chance(1, 3) {
+            let t = crate::gen::aisle_file(&mut r5);
+            let ops_c = gen_ops(&mut root.fork(6), &t, 6);
+            let n = ops_a.len() + ops_b.len() + ops_c.len();
+            let order: Vec<u8> = (0..n).map(|_| r5.below(3) as u8).collect();
+            (Some(t), ops_c, order)
+        } else if r5.chance(1, 2) {
+            let n = ops_a.len() + ops_b.len();
+            (None, vec![], (0..n).map(|_| r5.below(2) as u8).collect())
+        } else {
+            (None, vec![], vec![])
+        };
+        AisleScenario { text, hash_seed: root.fork(4).next_u64(), ops_a, ops_b, other_text, ops_c, order }
+    }
 }
 
 /// Every write call × every hard kind, every split point of every call, and EINTR
 /// before every call, for one configuration (the enumerated part of C11).
 pub fn enumerate_write_faults(text: &str) -> Vec<AisleScenario> {
     let mut v = Vec::new();
-    let base = AisleScenario { text: text.to_string(), hash_seed: 1, ops_a: vec![AisleOp::Lookup, AisleOp::Reparse], ops_b: vec![AisleOp::Reparse] };
+    let base = AisleScenario { text: text.to_string(), hash_seed: 1, ops_a: vec![AisleOp::Lookup, AisleOp::Reparse], ops_b: vec![AisleOp::Reparse], other_text: None, ops_c: vec![], order: vec![] };
     v.push(base);
     let Ok(Ok(conf)) = catch_unwind(AssertUnwindSafe(|| aisle::parse(text))) else { return v };
     let mut w = FaultyWriter::new(vec![], false);
@@ -470,7 +536,7 @@ pub fn enumerate_write_faults(text: &str) -> Vec<AisleScenario> {
     }
     let mut rec = Rec(Vec::new());
     let _ = aisle::write(&conf, &mut rec);
-    let mk = |faults: Vec<WriteFault>| AisleScenario { text: text.to_string(), hash_seed: 1, ops_a: vec![AisleOp::Lookup, AisleOp::Write { faults }, AisleOp::Reparse], ops_b: vec![] };
+    let mk = |faults: Vec<WriteFault>| AisleScenario { text: text.to_string(), hash_seed: 1, ops_a: vec![AisleOp::Lookup, AisleOp::Write { faults }, AisleOp::Reparse], ops_b: vec![], other_text: None, ops_c: vec![], order: vec![] };
     for c in 0..calls {
         v.push(mk(vec![WriteFault::WouldBlock { call: c }]));
         v.push(mk(vec![WriteFault::Zero { call: c }]));
@@ -627,7 +693,7 @@ pub fn worker(a: &Args) -> i32 {
                         s.push_str(alpha[(c % k) as usize]);
                         c /= k;
                     }
-                    let sc = AisleScenario { text: s, hash_seed: idx, ops_a: vec![AisleOp::Lookup, AisleOp::Reparse], ops_b: vec![] };
+                    let sc = AisleScenario { text: s, hash_seed: idx, ops_a: vec![AisleOp::Lookup, AisleOp::Reparse], ops_b: vec![], other_text: None, ops_c: vec![], order: vec![] };
                     let (viol, st) = execute(&sc);
                     out.exhaustive_strings += 1;
                     out.runs += 1;
